@@ -387,7 +387,12 @@ class SymReal(SymNum):
     def __round__(self, n=None):
         raise HarnessError("round() on a symbolic real")
 
-    __hash__ = None
+    def __hash__(self):
+        # opt-in: one bucket for every symbolic real, so that dict / set look-ups among symbolic keys are decided by ==,
+        # i.e. by the solver (forks). Only sound when the keys compared are all symbolic (stated by the harness that enables it).
+        if _CTX is not None and getattr(_CTX.opts, "sym_hash", False):
+            return 0
+        raise TypeError("unhashable type: symbolic real")
 
     def sqrt(self):
         return ctx().sqrt(self)
@@ -512,6 +517,7 @@ class Options:
     path_timeout_s: int = 300  # wall-clock cap per path (a concrete non-terminating loop ends as inconclusive)
     lazy_nonlinear: bool = True
     hashcons_timeout_ms: int = 1000  # budget of one "are these two radicands equal on this path" query
+    sym_hash: bool = False  # symbolic reals hash to one bucket (dict look-ups among symbolic keys fork on ==)
     merge_clip: bool = False  # np.clip values as if-then-else terms instead of forking
     merge_minmax: bool = False  # np.min/np.max values as if-then-else terms instead of forking on the order of the elements
 
